@@ -412,5 +412,7 @@ COMMON_ASSUMPTIONS = [
     "time trigger: the model treats it as an oracle trigger; the checked cases feed the model the decisions "
     "predicted from the documented schedule (second intervals, UTC, no random delay) — the schedule is C16's subject",
     "u64 length counter and u32 archive indices do not overflow (base + count <= 2^32 is C07's subject)",
-    "synchronous rotation (default build); the `background_rotation` feature is not covered",
+    "synchronous rotation (default build) - the `background_rotation` build is exercised by C05 only",
+    "a failing roller (C06/C17 histories with op 7) is modelled as returning Err before its first file-system "
+    "effect; partially executed rotations are C08's subject",
 ]
